@@ -20,7 +20,8 @@ CONFIG = {
              "node, randomly_reorient, randomly_rotate, ladderize, reorder) x update_bipartitions x "
              "suppress_unifurcations x collapse_unrooted_basal_bifurcation (where offered), optionally with a current "
              "encoding before the call. Exhaustive part: every target of every labelled tree on <= 4 (quick) / 5 "
-             "(thorough) leaves with unit lengths. Non-trivial = target is not already the seed / operation changes "
+             "(thorough) leaves with unit lengths. History part: 2-4 operations in a row on ONE tree object, each judged against "
+             "the snapshot taken just before it (midpoint twice with a re-rooting in between, etc.). Non-trivial = target is not already the seed / operation changes "
              "the drawing; distinct = (spec, rooting, op, target, flags). Midpoint classes (on vertex / inside edge / "
              "tie between farthest pairs) are counted separately."),
     "exhaustive_note": {"quick": "all labelled rooted trees on 3-4 leaves x 2 rootings x every op target, unit lengths",
@@ -51,6 +52,19 @@ def cases(draw, max_leaves):
             "asc": draw(st.booleans()), "seed": draw(st.integers(0, 2 ** 31)), "encode_first": draw(st.booleans())}
 
 
+@st.composite
+def history_cases(draw, max_leaves):
+    sl = draw(shapes.with_lengths(shapes.shapes(min_leaves=4, max_leaves=max_leaves, max_arity=3, unifurcations=False),
+                                  patterns=("unit", "smallint", "dyadic", "float", "dyadic")))
+    ops = []
+    for _ in range(draw(st.integers(2, 4))):
+        ops.append({"op": draw(st.sampled_from(["reroot_at_midpoint", "reroot_at_midpoint", "reroot_at_node", "reseed_at", "reroot_at_edge",
+                                               "to_outgroup_position", "randomly_reorient", "ladderize"])),
+                    "target": draw(st.integers(0, 200)), "frac": draw(st.integers(0, 8)), "ub": draw(st.booleans()), "su": True,
+                    "cb": draw(st.booleans()), "asc": draw(st.booleans()), "seed": draw(st.integers(0, 2 ** 31))})
+    return {"spec": sl["spec"], "lenpat": sl["lenpat"], "rooted": draw(st.sampled_from([True, False, None])), "ops": ops}
+
+
 def close(a, b, scale):
     return abs(a - b) <= TOL * (1.0 + abs(scale))
 
@@ -58,26 +72,61 @@ def close(a, b, scale):
 def check_case(ctx, case):
     import dendropy
     spec = case["spec"]
-    op = case["op"]
-    rooted_flag = case["rooted"]
     before = RefTree.from_spec(spec)
     n = before.n_leaves()
     ns, taxa, bits = shapes.build_namespace(shapes.plain_history(n))
-    tree = shapes.build_tree(spec, ns, taxa, is_rooted=rooted_flag)
+    tree = shapes.build_tree(spec, ns, taxa, is_rooted=case["rooted"])
     pre, problems = snapshot(tree)
     if problems:
         raise runner.HarnessError("built tree not well formed: %r" % problems)
     if case["encode_first"]:
         tree.encode_bipartitions(suppress_unifurcations=False, collapse_unrooted_basal_bifurcation=False)
-    lengths_ok = before.all_lengths_present()
+    run_op(ctx, tree, bits, pre, case, spec)
+
+
+def check_history(ctx, case):
+    """Several operations in a row on ONE tree object: every step is judged against the snapshot taken just before it
+    (nothing computed for an earlier drawing of the tree may be reused)."""
+    spec = case["spec"]
+    n = RefTree.from_spec(spec).n_leaves()
+    ns, taxa, bits = shapes.build_namespace(shapes.plain_history(n))
+    tree = shapes.build_tree(spec, ns, taxa, is_rooted=case["rooted"])
+    kinds = []
+    for k, opc in enumerate(case["ops"]):
+        pre, problems = snapshot(tree)
+        if problems:
+            raise runner.HarnessError("tree not well formed before step %d: %r" % (k, problems))
+        if len(pre.internals()) == 0 or pre.n_leaves() < 3:
+            return
+        if any(pre.taxon[i] is None for i in pre.leaves()):
+            return  # phantom leaf from the known outdegree-1-seed finding: history ends
+        step = dict(opc)
+        step["rooted"] = tree.is_rooted
+        step["lenpat"] = case["lenpat"]
+        step["encode_first"] = False
+        if step["op"] == "reroot_at_midpoint" and not all(pre.length[i] is not None and pre.length[i] >= 0 for i in pre.nodes() if i != pre.root):
+            step["op"] = "reseed_at"
+        run_op(ctx, tree, bits, pre, step, spec, history=kinds)
+        kinds.append(step["op"])
+    if len(kinds) >= 2:
+        ctx.cls("history:%d_steps" % len(kinds))
+        if kinds.count("reroot_at_midpoint") >= 2:
+            ctx.cls("history:midpoint_twice")
+
+
+def run_op(ctx, tree, bits, pre, case, spec, history=None):
+    op = case["op"]
+    rooted_flag = case["rooted"]
+    before = pre
     ub, su, cb = case["ub"], case["su"], case["cb"]
     nodes = pre.nodes()
     internals = [i for i in pre.internals()]
     nonseed = [i for i in nodes if i != pre.root]
-    tag = "%s rooted=%r ub=%r su=%r cb=%r" % (op, rooted_flag, ub, su, cb)
+    tag = "%s rooted=%r ub=%r su=%r cb=%r%s" % (op, rooted_flag, ub, su, cb, "" if history is None else " after %r" % (history,))
     info = {}
     trivial = False
     key = "C07." + op
+    lengths_ok = before.all_lengths_present()
 
     if op in ("reseed_at", "reroot_at_node"):
         tgt = internals[case["target"] % len(internals)]
@@ -149,7 +198,7 @@ def check_case(ctx, case):
                   lambda: "%s flag now %r" % (tag, tree.is_rooted))
     # lengths
     if lengths_ok:
-        tb, ta = before.total_length(), after.total_length(include_root=True)
+        tb, ta = before.total_length(include_root=True), after.total_length(include_root=True)
         ctx.check(close(tb, ta, tb), "total_length_unchanged", "C07.total_length:" + op,
                   lambda: "%s total before %r after %r; %s" % (tag, tb, ta, d()))
         pb, pa = before.leaf_paths(), after.leaf_paths()
@@ -262,7 +311,7 @@ def check_exh(ctx, item):
     check_case(ctx, case)
 
 
-SUBCHECKS = {"random": check_case, "exhaustive": check_exh}
+SUBCHECKS = {"random": check_case, "exhaustive": check_exh, "history": check_history}
 
 
 def run(ctx):
@@ -270,3 +319,4 @@ def run(ctx):
     total = 4000 if quick else 96000
     runner.run_given(ctx, "random", cases(10 if quick else 30), check_case, total // ctx.nshards)
     runner.run_items(ctx, "exhaustive", exhaustive_items(4 if quick else 5), check_exh)
+    runner.run_given(ctx, "history", history_cases(9 if quick else 20), check_history, (1600 if quick else 30000) // ctx.nshards)
